@@ -17,7 +17,7 @@ def pk(o):
 def run(run, args):
     n = (60 if run.tier == "quick" else 600) * run.scale
     brainlib.prepare(run)
-    source_tie(run)
+    source_tie(run, ("mz", "poisson", "convolution", "peak"))
     rc, out, _ = make(["model/ChargeCheck.vo", "model/ConvCheck.vo", "model/PoissonCheck.vo"])
     if rc != 0:
         violation(run, {"broken": "model files do not build", "detail": out[-3000:]}, nofail=True)
@@ -83,6 +83,7 @@ def run(run, args):
     run.oblige("correspondence: Mz.v = mz.rs bit for bit on the direct conversion calls", not mres[0], "%d differ" % len(mres[0]))
     run.oblige("neutral_mass inverts mass_charge_ratio, and both are the stated formulas, on every direct call", not mres[1], "%d fail" % len(mres[1]))
     broken = standard_proof_obligations(run, "C10", THEOREMS) if THEOREMS else []
+    broken += source_corollaries(run, "C10s", ['C10s_inverse', 'C10s_formula', 'C10s_charge_zero', 'C10s_poisson', 'C10s_brain', 'C10s_convolution'], ('mz', 'poisson', 'brain', 'convolution', 'peak'))
     # floating-point level: neutral_mass o mass_charge_ratio in rounded arithmetic, and its binary64 instance
     broken += standard_proof_obligations(run, "C10f", ["C10_inverse_rounded", "C10_binary64_std_ext", "C10_inverse_binary64", "C10_float_nonvacuous"],
                                          allowed_axioms=STD_FLOAT_AXIOMS)
